@@ -21,8 +21,10 @@ import warnings
 from typing import Any, Dict, List, Optional, Tuple
 
 DEFS = {"U1": ("Ux", False), "U2": ("Ux", False), "U3": ("Uy", True), "U4": ("R", False), "U5": ("Lab", False), "U6": ("r", False),
-        "U7": ("R-x", False), "U8": ("Uz", "subtle")}
-PROBES = ["R", "C", "L", "La", "Ls", "LLaLs", "Ux", "UxR", "Uy", "UyR", "Uz", "Lab", "LabL", "K", "Rx", "Tlm"]
+        "U7": ("R-x", False), "U8": ("Uz", "subtle"),
+        "U9": ("U_x", False),        # a valid symbol with an underscore: listed and parsed like any other
+        "U10": ("Ux", "changed")}    # U1's own class and symbol again, with an equation that now contradicts its impedance: refused
+PROBES = ["R", "C", "L", "La", "Ls", "LLaLs", "Ux", "UxR", "Uy", "UyR", "Uz", "Lab", "LabL", "K", "Rx", "Tlm", "U_x", "U_xR", "RU_x"]
 
 _SNAP: Dict[str, Any] = {}
 
@@ -135,6 +137,10 @@ class Model:
         return {"defs": {}}, Ref(self.S)
 
     def cls(self, impl, tag):
+        if tag == "U10":   # the class object of U1 (registered or not) under its own symbol, with a changed, inconsistent equation
+            A, np = self.api, self.np
+            return A["ElementDefinition"](Class=self.cls(impl, "U1").Class, symbol="Ux", name="nU1", description="d", equation="R*3",
+                                          parameters=[A["ParameterDefinition"]("R", "ohm", "res", 1.0, 0.0, np.inf, False)])
         if tag not in impl["defs"]:
             impl["defs"][tag] = self.mk(tag)
         return impl["defs"][tag]
@@ -146,7 +152,7 @@ class Model:
         ops: List[list] = []
         for t in DEFS:
             for p in (False, True):
-                if t in ("U6", "U7", "U3", "U4", "U8") and p:
+                if t in ("U6", "U7", "U3", "U4", "U8", "U9", "U10") and p:
                     continue
                 ops.append(["reg", t, p])
         for t in ("U1", "U2", "U5", "Resistor", "list", "unknown"):
@@ -224,6 +230,10 @@ class Model:
             t = op[1]
             sym, bad = DEFS[t]
             if not re.fullmatch(r"[A-Z][a-z0-9_]*", sym):
+                return "ValueError"
+            if bad == "changed":      # re-initialises U1's class (defaults back to the definition's) and is then refused by validation
+                ref.initialised.add("U1")
+                ref.userdef["U1"] = 1.0
                 return "ValueError"
             ref.initialised.add(t)
             ref.userdef[t] = 1.0
